@@ -9,12 +9,12 @@ cd "$WT" || exit 9
 git checkout -q --detach $(git -C /repo rev-parse HEAD) 2>/dev/null
 PATCH=$SRC/patch.diff; [ -f $SRC/patch_rebased.diff ] && PATCH=$SRC/patch_rebased.diff
 git checkout -q -- . ; [ -z "$(git status --porcelain)" ] || { echo "worktree dirty"; exit 9; }
+want=$(PYTHONPATH=$WT /venv/bin/python -m pytest -q -p no:cacheprovider 2>&1 | tail -15 | grep '^FAILED\|^ERROR' | sed 's/ - .*//; s/^FAILED //; s/^ERROR //' | sort | tr '\n' ' ')
 PYTHONPATH=$WT timeout 600 /venv/bin/python -W ignore $SRC/demo.py >/tmp/confirm_$P$M.clean 2>&1; c=$?
 git apply $PATCH || { echo "patch does not apply"; exit 8; }
 PYTHONPATH=$WT timeout 600 /venv/bin/python -W ignore $SRC/demo.py >/tmp/confirm_$P$M.mut 2>&1; m=$?
 PYTHONPATH=$WT /venv/bin/python -m pytest -q -p no:cacheprovider 2>&1 | tail -15 > /tmp/confirm_$P$M.tests
 fails=$(grep '^FAILED\|^ERROR' /tmp/confirm_$P$M.tests | sed 's/ - .*//; s/^FAILED //; s/^ERROR //' | sort | tr '\n' ' ')
-want=$(echo $BASE_FAIL | tr ' ' '\n' | sort | tr '\n' ' ')
 summary=$(tail -1 /tmp/confirm_$P$M.tests)
 git checkout -q -- .
 ok=1; [ "$c" = 0 ] || ok=0; [ "$m" = 1 ] || ok=0; [ "$fails" = "$want" ] || ok=0
